@@ -730,7 +730,7 @@ func (a *c16Analysis) origins(fn *ssa.Function, depth int) []c16Origin {
 		if len(rets) == 0 {
 			continue
 		}
-		out = append(out, c16Origin{At: call, Name: "via-" + cal.Name(), Call: call, Rets: rets})
+		out = append(out, c16Origin{At: call, Name: "via-" + stableName(cal), Call: call, Rets: rets})
 	}
 	return out
 }
